@@ -151,6 +151,12 @@ func TestCheck(t *testing.T) {
 		if faults[f].slow && !run.Thorough() {
 			continue
 		}
+		if faults[f].shards > 1 {
+			for k := 0; k < faults[f].shards; k++ {
+				jobs = append(jobs, job{fmt.Sprintf("fault:%s#%d/%d", faults[f].name, k, faults[f].shards)})
+			}
+			continue
+		}
 		jobs = append(jobs, job{"fault:" + faults[f].name})
 	}
 	ev.Parallel(len(jobs), 8, func(i int) {
@@ -374,15 +380,37 @@ func byName(n string) *compliance.TestSpec {
 func faulty(col *child.Collector, wr *child.Writer, sp *child.Spec, name string) {
 	cfg := configs[0]
 	setConfig(cfg)
+	shard, nShards := 0, 1
+	jobID := "fault:" + name
+	if i := strings.Index(name, "#"); i >= 0 {
+		fmt.Sscanf(name[i+1:], "%d/%d", &shard, &nShards)
+		name = name[:i]
+	}
 	var f *fault
 	for i := range faults {
 		if faults[i].name == name {
-			f = &faults[i]
+			ff := faults[i]
+			f = &ff
 		}
 	}
 	if f == nil {
 		col.Fatal("unknown fault " + name)
 		return
+	}
+	if f.expectIf != nil {
+		f.expect = nil
+		k := 0
+		for _, tt := range compliance.TestSuite {
+			if f.expectIf(tt) {
+				if k%nShards == shard {
+					f.expect = append(f.expect, tt.In.ShortName)
+				}
+				k++
+			}
+		}
+		if shard != 0 {
+			f.control = nil
+		}
 	}
 	type res struct {
 		test    string
@@ -438,6 +466,7 @@ func faulty(col *child.Collector, wr *child.Writer, sp *child.Spec, name string)
 	flagged := 0
 	for _, r := range results {
 		col.Count("faulty_server_test_executions", 1)
+		col.Eval(1) // one evaluation = one compliance test run against one faulty server
 		col.Distinct("fault:" + name + "/" + r.test)
 		switch {
 		case len(r.v.msgs) == 1 && r.v.msgs[0] == "NO SUCH TEST":
@@ -451,13 +480,12 @@ func faulty(col *child.Collector, wr *child.Writer, sp *child.Spec, name string)
 		case r.v.skipped:
 			col.Inconclusive(fmt.Sprintf("fault %s: %q was skipped, it cannot witness the fault", name, r.test))
 		case !r.v.failed:
-			col.Violation("fault:"+name, "faulty-server-not-flagged:"+name+":"+sanit(r.test), fmt.Sprintf("against a server that %s, the compliance test %q still PASSES (took %s)", f.what, r.test, r.v.dur.Round(time.Millisecond)), nil)
+			col.Violation(jobID, "faulty-server-not-flagged:"+name+":"+sanit(r.test), fmt.Sprintf("against a server that %s, the compliance test %q still PASSES (took %s)", f.what, r.test, r.v.dur.Round(time.Millisecond)), nil)
 		default:
 			flagged++
 			col.Count("faults_flagged_by_their_tests", 1)
 		}
 	}
-	col.Eval(1)
 	col.Seen("faults_exercised", name)
 	col.Sample(map[string]any{"fault": name, "breaks": f.what, "tests_expected_to_fail": f.expect, "flagged": flagged})
 }
